@@ -122,22 +122,27 @@ def dsym(base, *vs):
 
 
 class BWorld:
-    def __init__(self, repo, nS, nP, nE):
-        self.repo, self.nS, self.nP, self.nE = repo, nS, nP, nE
+    def __init__(self, repo, nS, nP, nE, gen=""):
+        """`gen` distinguishes successive definitions of the same model object: the symbols of the
+        right-hand side, rates and state-change matrix of generation g are f<g>i, a<g>i, V<g>k_j"""
+        self.repo, self.nS, self.nP, self.nE, self.gen = repo, nS, nP, nE, gen
         self.cls = M.sim_class(repo)
         self.xs = [A.sym("x%d" % i) for i in range(nS)]
         self.ps = [A.sym("p%d" % k) for k in range(nP)]
-        self.f = SymMat((nS, 1), [A.sym("f%d" % i) for i in range(nS)])
-        self.a = SymMat((nE, 1), [A.sym("a%d" % i) for i in range(nE)])
-        self.V = SymMat((nS, nE), [A.sym("V%d_%d" % (k, j)) for k in range(nS) for j in range(nE)])
-        self.F = SymMat((nE, nE), [A.sym("F%d_%d" % (i, j)) for i in range(nE) for j in range(nE)])
+        self.fn_ = lambda i: "f%s%d" % (gen, i)
+        self.an_ = lambda i: "a%s%d" % (gen, i)
+        self.f = SymMat((nS, 1), [A.sym(self.fn_(i)) for i in range(nS)])
+        self.a = SymMat((nE, 1), [A.sym(self.an_(i)) for i in range(nE)])
+        self.V = SymMat((nS, nE), [A.sym("V%s%d_%d" % (gen, k, j)) for k in range(nS) for j in range(nE)])
+        self.F = SymMat((nE, nE), [A.sym("F%s%d_%d" % (gen, i, j)) for i in range(nE) for j in range(nE)])
         self.refreshed = []
 
-    def run(self, name, preset=()):
+    def run(self, name, me=None):
         fn = self.repo.resolve_method(self.cls, name)
         if fn is None:
             raise AnalysisError("builder %s vanished" % name)
-        me = Obj("Model", _isDifficult=False)
+        if me is None:
+            me = Obj("Model", _isDifficult=False)
         w = self
 
         def setter(attr, val):
@@ -146,7 +151,7 @@ class BWorld:
                 w.refreshed.append(attr)
                 return me_.attrs[attr]
             return s
-        grad = SymMat((self.nS, self.nP), [dsym("f%d" % i, "p%d" % k) for i in range(self.nS) for k in range(self.nP)]) if self.nP else SymMat((self.nS, 0), [])
+        grad = SymMat((self.nS, self.nP), [dsym(self.fn_(i), "p%d" % k) for i in range(self.nS) for k in range(self.nP)]) if self.nP else SymMat((self.nS, 0), [])
         summ = {
             "Model.get_ode_eqn": setter("_ode", self.f),
             "Model.get_grad_eqn": setter("_Grad", grad),
@@ -178,56 +183,70 @@ def check(repo, res, tier):
     res.n_clauses = ["correctness of sympy's diff / jacobian and of the compiled code", "numeric evaluation away from singularities of the rates"]
     shapes = ((2, 3, 2), (3, 2, 3), (1, 2, 1), (2, 1, 3)) + (((4, 2, 4), (2, 4, 1), (1, 1, 1), (3, 3, 2)) if tier == "thorough" else ())
     n = check_builders(repo, res, None, shapes)
-    res.floor("builder interpretations", n, 24)
+    res.floor("builder interpretations", n, 48)
     check_shapes(repo, res, {"jacobian", "grad", "diff_jacobian", "grad_jacobian", "transitionJacobian", "transitionMean", "transitionVar"},
                  {"transitionJacobian": "one-event models", "jacobian": "one-state models"})
 
 
 def check_builders(repo, res, names, shapes):
-    """R-DERIV / R-CAO / R-REFRESH for the builders in `names` (None = all seven) at the given shapes"""
+    """R-DERIV / R-CAO / R-REFRESH for the builders in `names` (None = all seven) at the given shapes.
+    Every builder is activated twice on the same model object: once on a freshly constructed object and once
+    more after the model definition changed (all symbols of the right-hand side, the rates and the
+    state-change matrix replaced); both results must be the derivatives of the definition current at that
+    activation - a builder that keeps anything from an earlier activation fails the second one."""
     n = 0
     for nS, nP, nE in shapes:
         sh = "(nS=%d,nP=%d,nE=%d)" % (nS, nP, nE)
-        w = BWorld(repo, nS, nP, nE)
-        specs = [
-            ("get_jacobian_eqn", "R-DERIV", lambda: SymMat((nS, nS), [dsym("f%d" % i, "x%d" % j) for i in range(nS) for j in range(nS)]),
-             "jacobian[i,j] = d f_i / d x_j", ["_ode"]),
-            ("get_grad_eqn", "R-DERIV", lambda: SymMat((nS, nP), [dsym("f%d" % i, "p%d" % k) for i in range(nS) for k in range(nP)]),
-             "grad[i,k] = d f_i / d theta_k", ["_ode"]),
-            ("get_diff_jacobian_eqn", "R-DERIV", lambda: SymMat((nS * nS, nS), [dsym("f%d" % e, "x%d" % i, "x%d" % j) for e in range(nS) for i in range(nS) for j in range(nS)]),
-             "diff_jacobian[e*nS+i, j] = d2 f_e / d x_i d x_j", ["_ode"]),
-            ("get_grad_jacobian_eqn", "R-DERIV", lambda: SymMat((nS * nP, nS), [dsym("f%d" % i, "p%d" % k, "x%d" % j) for k in range(nP) for i in range(nS) for j in range(nS)]),
-             "grad_jacobian[k*nS+i, j] = d2 f_i / d theta_k d x_j", ["_Grad"]),
-            ("get_TransitionJacobian", "R-CAO", lambda: _tj(w), "F[i,j] = sum_k d a_i/d x_k * V[k,j]", ["_vMat", "_eventRateVector"]),
-            ("get_TransitionMean", "R-CAO", lambda: _tm(w, 1), "mu[i] = sum_j F[i,j] a_j", ["_transitionJacobian", "_eventRateVector"]),
-            ("get_TransitionVar", "R-CAO", lambda: _tm(w, 2), "sigma2[i] = sum_j F[i,j]^2 a_j", ["_transitionJacobian", "_eventRateVector"]),
-        ]
-        for name, rule, want_fn, text, needs in specs:
+        names_all = ["get_jacobian_eqn", "get_grad_eqn", "get_diff_jacobian_eqn", "get_grad_jacobian_eqn",
+                     "get_TransitionJacobian", "get_TransitionMean", "get_TransitionVar"]
+        for name in names_all:
             if names is not None and name not in names:
                 continue
-            w.refreshed = []
-            try:
-                fn, kind, out, me = w.run(name)
-            except A.Undecided as e:
-                res.undecided(rule, repo.resolve_method(w.cls, name), name + sh, "outside the modelled subset: %s" % e)
-                continue
-            n += 1
-            tag = name + sh
-            if kind == "raise":
-                if str(out).startswith("AttributeError(Model."):
-                    res.violated("R-REFRESH", fn, tag, "%s reads %s without refreshing it in the same activation (stale or missing object)" % (name, out), node=fn.node)
-                else:
-                    res.violated(rule, fn, tag, "%s raises %s" % (name, out), node=fn.node)
-                continue
-            want = want_fn()
-            if not isinstance(out, SymArr):
-                res.violated(rule, fn, tag, "%s returns %r" % (name, out), node=fn.node)
-                continue
-            d = L.first_diff(SymArr(out.shape, out.flat), SymArr(want.shape, want.flat))
-            res.check(d is None, rule, fn, tag, text, "%s: %s  (D[f|v] = formal derivative of f w.r.t. v)" % (text, d), node=fn.node)
-            miss = [a_ for a_ in needs if a_ not in w.refreshed]
-            res.check(not miss, "R-REFRESH", fn, "refresh:" + tag, "%s rebuilds %s before using it" % (name, needs),
-                      "%s uses %s without rebuilding it in this activation" % (name, miss), node=fn.node)
+            me = None
+            for gen in ("", "n"):
+                w = BWorld(repo, nS, nP, nE, gen)
+                F_, A_ = w.fn_, w.an_
+                specs = {
+                    "get_jacobian_eqn": ("R-DERIV", lambda: SymMat((nS, nS), [dsym(F_(i), "x%d" % j) for i in range(nS) for j in range(nS)]),
+                                         "jacobian[i,j] = d f_i / d x_j", ["_ode"]),
+                    "get_grad_eqn": ("R-DERIV", lambda: SymMat((nS, nP), [dsym(F_(i), "p%d" % k) for i in range(nS) for k in range(nP)]),
+                                     "grad[i,k] = d f_i / d theta_k", ["_ode"]),
+                    "get_diff_jacobian_eqn": ("R-DERIV", lambda: SymMat((nS * nS, nS), [dsym(F_(e), "x%d" % i, "x%d" % j) for e in range(nS) for i in range(nS) for j in range(nS)]),
+                                              "diff_jacobian[e*nS+i, j] = d2 f_e / d x_i d x_j", ["_ode"]),
+                    "get_grad_jacobian_eqn": ("R-DERIV", lambda: SymMat((nS * nP, nS), [dsym(F_(i), "p%d" % k, "x%d" % j) for k in range(nP) for i in range(nS) for j in range(nS)]),
+                                              "grad_jacobian[k*nS+i, j] = d2 f_i / d theta_k d x_j", ["_Grad"]),
+                    "get_TransitionJacobian": ("R-CAO", lambda: _tj(w), "F[i,j] = sum_k d a_i/d x_k * V[k,j]", ["_vMat", "_eventRateVector"]),
+                    "get_TransitionMean": ("R-CAO", lambda: _tm(w, 1), "mu[i] = sum_j F[i,j] a_j", ["_transitionJacobian", "_eventRateVector"]),
+                    "get_TransitionVar": ("R-CAO", lambda: _tm(w, 2), "sigma2[i] = sum_j F[i,j]^2 a_j", ["_transitionJacobian", "_eventRateVector"]),
+                }
+                rule, want_fn, text, needs = specs[name]
+                second = gen != ""
+                tag = name + sh + (",after-redefinition" if second else "")
+                w.refreshed = []
+                try:
+                    fn, kind, out, me = w.run(name, me)
+                except A.Undecided as e:
+                    res.undecided(rule, repo.resolve_method(w.cls, name), tag, "outside the modelled subset: %s" % e)
+                    break
+                n += 1
+                if kind == "raise":
+                    if str(out).startswith("AttributeError(Model."):
+                        res.violated("R-REFRESH", fn, tag, "%s reads %s without refreshing it in the same activation (stale or missing object)" % (name, out), node=fn.node)
+                    else:
+                        res.violated(rule, fn, tag, "%s raises %s" % (name, out), node=fn.node)
+                    break
+                want = want_fn()
+                if not isinstance(out, SymArr):
+                    res.violated(rule, fn, tag, "%s returns %r" % (name, out), node=fn.node)
+                    break
+                d = L.first_diff(SymArr(out.shape, out.flat), SymArr(want.shape, want.flat))
+                if second and d is not None:
+                    res.violated("R-REFRESH", fn, tag, "after the model definition changed, %s still returns derivatives of the earlier definition: %s" % (name, d), node=fn.node)
+                    break
+                res.check(d is None, rule, fn, tag, text, "%s: %s  (D[f|v] = formal derivative of f w.r.t. v)" % (text, d), node=fn.node)
+                miss = [a_ for a_ in needs if a_ not in w.refreshed]
+                res.check(not miss, "R-REFRESH", fn, "refresh:" + tag, "%s rebuilds %s before using it" % (name, needs),
+                          "%s uses %s without rebuilding it in this activation" % (name, miss), node=fn.node)
     return n
 
 
@@ -237,7 +256,7 @@ def _tj(w):
         for j in range(w.nE):
             t = A.Rat.const(0)
             for k in range(w.nS):
-                t = t + dsym("a%d" % i, "x%d" % k) * w.V.at((k, j))
+                t = t + dsym(w.an_(i), "x%d" % k) * w.V.at((k, j))
             out[i, j] = t
     return out
 
